@@ -57,7 +57,7 @@ def fmt_one(I, a, opts):
     fl = opts.get('flags', 0)
     width = opts.get('width')
     # FormattingOptions flags: 0-20 fill, 21 '+', 22 '-', 23 '#', 24 '0', 25/26 debug hex, 27 width set, 28 precision set, 29-30 alignment
-    if fl & 0x06E00000:
+    if fl & 0x06C00000:
         raise Unsupported('format flags %r' % (opts,))
     v = a.v
     if a.kind == 'display':
@@ -97,10 +97,24 @@ def display(I, v, opts=None, ty=None):
         v = v.v
     if isinstance(v, bool):
         return list(b'true' if v else b'false')
+    plus = list(b'+') if (opts.get('flags', 0) & 0x00200000) else []
+    while ty is not None and ty[0] == 'ref':
+        ty = ty[2]
+    sinfo = int_info(type_str(ty)) if ty is not None else None
+    if sinfo is not None and sinfo[1] and not isinstance(v, float):
+        # signed integer (two's complement representation): sign, then the magnitude in decimal
+        bits = sinfo[0]
+        if is_sym(v):
+            V = bv(v, bits)
+            if I.ctx.decide(V < 0):
+                return list(b'-') + [DecRun(simp(-V), bits)]
+            return plus + [DecRun(V, bits)]
+        sv = v - (1 << bits) if v >> (bits - 1) else v
+        return (list(b'-') if sv < 0 else plus) + dec_digits(abs(sv))
     if isinstance(v, int):
         if ty is not None and type_str(ty) == 'char':
             s = []; push_char(I, s, v); return s
-        return dec_digits(v)
+        return plus + dec_digits(v)
     if isinstance(v, float):
         p = opts.get('precision')
         if p is not None:
@@ -110,7 +124,7 @@ def display(I, v, opts=None, ty=None):
         if z3.is_bv(v):
             if ty is not None and type_str(ty) == 'char':
                 s = []; push_char(I, s, v); return s
-            return [DecRun(v, v.size())]
+            return plus + [DecRun(v, v.size())]
         if z3.is_bool(v):
             return list(b'true') if I.ctx.decide(v) else list(b'false')
         if z3.is_fp(v):
